@@ -61,8 +61,21 @@ impl<'r> FreeGen<'r> {
             };
         }
         match self.rng.below(8) {
-            0 => GExpr::List((0..self.rng.below(4)).map(|_| self.expr(depth + 1)).collect()),
-            1 => GExpr::Set((0..self.rng.below(4)).map(|_| self.expr(depth + 1)).collect()),
+            0 | 1 => {
+                // elements may repeat (next to each other or apart): a literal keeps all of them
+                let mut xs: Vec<GExpr> = (0..self.rng.below(4)).map(|_| self.expr(depth + 1)).collect();
+                if !xs.is_empty() && self.rng.chance(1, 3) {
+                    let k = self.rng.below(xs.len());
+                    let dup = xs[k].clone();
+                    let at = if self.rng.chance(2, 3) { k + 1 } else { self.rng.below(xs.len() + 1) };
+                    xs.insert(at, dup);
+                }
+                if self.rng.chance(1, 2) {
+                    GExpr::List(xs)
+                } else {
+                    GExpr::Set(xs)
+                }
+            }
             2 => GExpr::ListComp {
                 elem: Box::new(self.expr(depth + 1)),
                 var: GUVar::new(&self.name()),
